@@ -381,6 +381,18 @@ def fill_loop(P, rep, outv, rule="LAYOUT.L2"):
         else:
             rep.ok(rule, "case %s records output.size() before appending; forwards properties[i]" % KINDS.get(kind, kind),
                    F.nloc(stmts[0]) if stmts else F.loc, F.qn)
+    # any direct element access to the result vector in the evaluator itself must go through a recorded slot offset
+    for n in F.walk():
+        s = astq.subscript(n)
+        if s and astq.is_ref_to(s[0], outv):
+            idx = norm.render(P, s[1])
+            via_entry = any(x.get("k") == "DeclRefExpr" and x.get("r") in entry_keys for x in F.walk(s[1]))
+            if via_entry:
+                rep.ok(rule, "evaluator accesses output[%s] through a recorded slot offset" % idx, F.nloc(n), F.qn)
+            else:
+                rep.violation(rule, "the evaluator accesses output[%s]: indexed by %s, not by a recorded slot offset" % (idx, idx), F.nloc(n), F.qn,
+                              norm.render(P, F.parent.get(n["i"]) or n)[:120], "position in the request is not position in the result (grains and velocity are wider than 1)",
+                              key="%s|direct-index|%s" % (rule, idx), witness="request in which a velocity or grains property precedes this one")
     return entry_keys, local_keys
 
 
